@@ -24,7 +24,8 @@ ID = "C09"
 RULE = (
     "Hypothesis draws 1-3 periodic axes (each either kind 'periodic' = zero Bloch vector, or 'bloch' with a "
     "phase advance per cell from {0, +-0.7, 1.9, -2.4, pi, 2.5*pi/3 ...}), N in 2..6 cells on every periodic "
-    "axis and tiling factor m in {2,3} on each of them (at least one m > 1), the remaining axes 2..6 cells "
+    "axis (2..4 in the full-tensor third of the cases, which always carry a non-zero Bloch phase) and tiling factor "
+    "m in {2,3} on each of them, the remaining axes 2..6 cells "
     "with two independent faces from {zero halo, PEC, PMC}; uniform or rectilinear grid (widths tiled, first "
     "= last width on periodic axes); per-cell random materials written into the placed arrays and tiled: eps "
     "isotropic / diagonal / full SPD tensor, mu absent / isotropic / diagonal / full, optional per-cell "
@@ -47,28 +48,36 @@ PHASES = [0.0, 0.7, -0.7, 1.9, -2.4, 3.141592653589793, 2.6179938779914944, 0.05
 
 @st.composite
 def case_strategy(draw, ctx):
+    # full tensors cost 5-10x (compile + batched 3x3 solves): one case in three, and those always carry a Bloch phase
+    # (the off-diagonal averages read the phase-corrected halo)
+    full = draw(st.integers(0, 2)) == 0
     nper = draw(st.sampled_from([1, 1, 2, 2, 3]))
     per_axes = sorted(draw(st.permutations([0, 1, 2]))[:nper])
     shape, m, faces, phase = [], [], {}, [0.0, 0.0, 0.0]
-    any_bloch = draw(st.integers(0, 3)) > 0  # 3/4 of the cases carry a Bloch phase
+    any_bloch = full or draw(st.integers(0, 3)) > 0  # 3/4 of the other cases carry a Bloch phase
     for ax in range(3):
         an = scenes.AXNAME[ax]
-        shape.append(draw(st.integers(2, 6)))
+        shape.append(draw(st.integers(2, 4 if full else 6)))
         if ax in per_axes:
             kind = draw(st.sampled_from(["bloch", "bloch", "periodic"])) if any_bloch else "periodic"
+            if full and ax == per_axes[0]:
+                kind = "bloch"
             faces[f"min_{an}"] = {"kind": kind}
             faces[f"max_{an}"] = {"kind": kind}
             if kind == "bloch":
-                phase[ax] = draw(st.sampled_from(PHASES))
+                phase[ax] = draw(st.sampled_from(PHASES[1:] if (full and ax == per_axes[0]) else PHASES))
             m.append(draw(st.sampled_from([2, 3])))
         else:
             for side in ("min", "max"):
                 faces[f"{side}_{an}"] = {"kind": draw(st.sampled_from(["none", "pec", "pmc"]))}
             m.append(1)
     grid = draw(scenes.grid_strategy(shape, faces, kinds=("uniform", "uniform", "rect")))
-    full = draw(st.integers(0, 4)) == 0  # full tensors cost 5-10x (compile + 3x3 solves): one case in five
-    eps_tier = draw(st.sampled_from(["iso", "diag", "diag"] + (["full"] * 3 if full else [])))
-    mu_tier = draw(st.sampled_from(["none", "iso", "diag", "diag"] + (["full"] * 2 if full else [])))
+    eps_tier = draw(st.sampled_from(["iso", "diag", "diag"]))
+    mu_tier = draw(st.sampled_from(["none", "iso", "diag", "diag"]))
+    if full:
+        which = draw(st.sampled_from(["eps", "eps", "mu", "both"]))
+        eps_tier = "full" if which in ("eps", "both") else eps_tier
+        mu_tier = "full" if which in ("mu", "both") else mu_tier
     spec = {
         "shape": shape,
         "steps": draw(st.integers(10, 15 if "full" in (eps_tier, mu_tier) else 25)),
